@@ -18,7 +18,7 @@ OWN = {
     "ChanFlow": ("ChanFlowTable.lean", "chanFlow"), "SingleStmtFlow": ("SingleStmtFlowTable.lean", "singleStmtFlow"),
     "ImportFlow": ("ImportFlowTable.lean", "importFlow"), "LexFlow": ("LexFlowTable.lean", "lexFlow"),
     "CliFlow": ("CliFlowTable.lean", "cliFlow"), "Grammar": ("GrammarTable.lean", "grammar"),
-    "StmtFlow": ("StmtFlowTable.lean", "stmtFlow"),
+    "StmtFlow": ("StmtFlowTable.lean", "stmtFlow"), "Inventory": ("InventoryTable.lean", "inventory"),
 }
 # tables written inside a property file: (file, def name, predicate on the function name)
 INLINE = {
@@ -26,9 +26,12 @@ INLINE = {
                  ("C09.lean", "tryAndDeferFlow", lambda f: f in ("runTryStmt", "runDefers"))],
 }
 
+ROWTYPE = {"Inventory": "String × String × String"}
+DEFNAME = {"Inventory": "decls"}
+
 def rows(name):
     txt = open(os.path.join(GEN, name + ".lean")).read()
-    body = txt[txt.index("def leaves"):]
+    body = txt[txt.index("def " + DEFNAME.get(name, "leaves")):]
     body = body[body.index("[\n") + 2: body.rindex("\n]")]
     return [l.rstrip(",") for l in body.split("\n") if l.strip()]
 
@@ -45,7 +48,7 @@ def write_own(name):
     if head is None:
         head = f"/-\nThe functions of the source that Gen/{name} writes down, leaf statement by leaf statement, as they were read against the model when this\ntable was last audited. Kept by hand next to the model; compared on every run with the table regenerated from the source (Gen).\n-/\n"
     r = rows(name)
-    open(path, "w").write(head + "namespace Anko.Tables\n\ndef " + dname + " : List (String × String) := [\n" + ",\n".join(r) + "\n]\n\nend Anko.Tables\n")
+    open(path, "w").write(head + "namespace Anko.Tables\n\ndef " + dname + " : List (" + ROWTYPE.get(name, "String × String") + ") := [\n" + ",\n".join(r) + "\n]\n\nend Anko.Tables\n")
     print(name, "->", fname, len(r), "rows")
 
 def write_inline(name):
